@@ -61,7 +61,13 @@ class _StrAcc:
         if isinstance(others, Series):
             others = [others]
         cols = [list(o.data) if isinstance(o, Series) else list(o) for o in others]
-        return Series([sep.join([v] + [c[i] for c in cols]) for i, v in enumerate(self.s.data)], self.s.index, self.s.name)
+        out = []
+        for i, v in enumerate(self.s.data):
+            acc = v
+            for c in cols:
+                acc = acc + sep + c[i]        # built with + so that symbolic strings work
+            out.append(acc)
+        return Series(out, self.s.index, self.s.name)
 
     def replace(self, a, b):
         return Series([v.replace(a, b) for v in self.s.data], self.s.index, self.s.name)
